@@ -251,7 +251,8 @@ class VerifyAttrs(object):
         # dimension
         dimension = attrs["dimension"]
         rank = attrs["rank"]
-        if rank:
+        if rank or isinstance(rank, str):
+            # An empty value, +rank(), is an error too.
             if rank is True:
                 raise RuntimeError(
                     "'rank' attribute must have an integer value"
